@@ -370,11 +370,13 @@ Definition wire_15 (x : sx) : sx :=
   | _ => sx_err
   end.
 
-(* the kernel alone: (divide ai i1 i2 vis w) -> out   (vis, w : one block) *)
+(* the kernel alone: (divide ai i1 i2 vis w) -> out   (vis, w : one block); divide = () : the argument left out
+   (default regenerated from the signature) *)
 Definition wire_151 (x : sx) : sx :=
   match x with
   | L [divide; ai; i1; i2; vis; w] =>
-      of_arr3 of_Ext (kernel_block (to_bool divide) (to_nats ai) (to_nats i1) (to_nats i2)
+      let d := match divide with L [] => weights_default_divide | _ => to_bool divide end in
+      of_arr3 of_Ext (kernel_block d (to_nats ai) (to_nats i1) (to_nats i2)
                                    (to_arr3 to_cx vis) (to_arr3 to_Ext w))
   | _ => sx_err
   end.
